@@ -19,6 +19,8 @@ package tracing
 import (
 	"context"
 	"sync"
+
+	"github.com/olive-io/bpmn/v2/pkg/verifhook"
 )
 
 type subscription struct {
@@ -142,6 +144,7 @@ loop:
 }
 
 func (t *tracer) Send(trace ITrace) {
+	verifhook.Point("tracer.send")
 	select {
 	case t.traces <- trace:
 	case <-t.done:
